@@ -119,14 +119,14 @@ def run_op(b, sym, op, args):
     if op == 'exports':
         if diag:
             d1 = x.to_numpy()
-            own = MD.native_spaces(x)
+            own = b.own
             if not np.array_equal(d1, MD.dense(x, own)):
                 return 'viol', "to_numpy() of a diagonal tensor differs from block access"
             return 'ok', None
         D = MD.dense(x, spaces)
         if not np.array_equal(D, A):
             return 'viol', "block access does not reproduce the blocks that were set"
-        own = MD.native_spaces(x)
+        own = b.own
         Down = MD.dense(x, own)
         exps = [('to_numpy', lambda: x.to_numpy()), ('to_dense', lambda: np.asarray(x.to_dense()))]
         if b.nblocks:  # (to_nonsymmetric of a tensor without blocks has zero-size legs; not part of the statement)
@@ -267,7 +267,7 @@ def run_op(b, sym, op, args):
         axis = args
         if diag:
             return expect_err(TC.call(lambda: x.remove_leg(axis=axis)), 'diagonal tensor')
-        own = MD.native_spaces(x)
+        own = b.own
         removable = (len(own[axis]) == 1 and list(own[axis].values()) == [1]) or len(own[axis]) == 0
         f = lambda: x.remove_leg(axis=axis)
         if not removable:
@@ -296,7 +296,7 @@ def run_op(b, sym, op, args):
             m = TC.check_result(r, np.trace(A).reshape(()), [], (), n, what='trace(diag)')
             return ('viol', m) if m else ('ok', None)
         bad = any(sig[a] != -sig[c] for a, c in zip(l0, l1))
-        own = MD.native_spaces(x)
+        own = b.own
         incons = any(not _cons(own[a], own[c]) for a, c in zip(l0, l1))
         if bad or incons:
             return expect_err(TC.call(f), 'signatures or dimensions of traced legs do not match')
@@ -320,7 +320,7 @@ def run_op(b, sym, op, args):
         f = x.diag
         if diag:
             return expect_val(TC.call(f), A, spaces, sig, n)
-        own = MD.native_spaces(x)
+        own = b.own
         pm = TC.present_mask(b)
         ok = rank == 2 and sig[0] == -sig[1] and all(v == 0 for v in n)
         if ok:
@@ -380,7 +380,7 @@ def run_op(b, sym, op, args):
             return 'viol', f"{op}() = {v}, expected {ref}"
         return 'ok', None
     if op == 'contains':
-        own = MD.native_spaces(x)
+        own = b.own
         if diag or rank == 0:
             return 'ok', None
         for key in itertools.product(*[sorted(o) for o in own]):
@@ -403,7 +403,7 @@ def run_op(b, sym, op, args):
             return 'viol', f"to_raw_tensor() with {nb} blocks: {st}"
         if st != 'ok':
             return 'viol', f"to_raw_tensor(): {st} {v}"
-        own = MD.native_spaces(x)
+        own = b.own
         D = MD.dense(x, own)
         v = np.asarray(v)
         if diag:
